@@ -5,7 +5,7 @@
     H <Class> <opt>* :: <op> | <op> | …          run a history on a fresh object
     E <Class> <opt>* :: <ops> ## <ops>           run two histories on two fresh objects, then `a == b`
     F <function> <arg>*                          a pure helper function
-  Ops:  pack <v>* · unpack <xhex> <v>* · set <field> <v> · obs · call <method> <v>*
+  Ops:  pack <v>* · unpack <xhex> <v>* · set <field> <v> · obs · iter · call <method> <v>*
   Answers (histories): results joined by '|' :
     ok:<val> | err:<kind> | ok | <obs value> | ?      ('?' = state unspecified after an earlier error,
                                                        until the next successful unpack)
@@ -69,6 +69,7 @@ def stepOp (c : Codec) (s : c.σ) (dirty : Bool) (op : String) : c.σ × Bool ×
         | .ok _ => (s', false, "ok")
         | .error e => (s', true, "err:" ++ e.name)
   | ["obs"] => if dirty then (s, true, "?") else (s, false, toString (c.obs s))
+  | ["iter"] => (s, dirty, if dirty then "?" else "ok")   -- `for x in obj: pass`: no observable effect
   | "call" :: m :: args =>
     match parseVals args with
     | none => (s, dirty, "bad-op")
